@@ -13,6 +13,7 @@
 -/
 import Wbxml.Lemmas.RtNorm
 import Wbxml.Lemmas.X2WTree
+import Wbxml.Lemmas.XmlPrint
 namespace Wbxml.Lemmas.Rt
 open Wbxml Wbxml.Model Wbxml.Spec Wbxml.Lemmas.EncW Wbxml.Lemmas.X2W
 
@@ -172,18 +173,19 @@ structure FrameOk (f : XFrame) : Prop where
   kind : ∃ n a, f.kind = .elt n a ∧ (n.xmlName == dataName) = false ∧ isBinaryName n = false
   content : f.content = none
 
-/-- Element names the XML callbacks take as they are: no `|` (namespace separator), not `Data`. -/
-def eltNameOk (n : Bytes) : Bool := (lastIndexOf 124 n).isNone && !(n == dataName)
+/-- Element names the XML callbacks take as they are: no `|` (namespace separator), not `Data`,
+    no NUL. -/
+def eltNameOk (n : Bytes) : Bool := (lastIndexOf 124 n).isNone && !(n == dataName) && nulFree n
 
 theorem eltNameOk_notSkip (n : Bytes) (h : eltNameOk n = true) : (n == devinfName || n == mgmtName) = false := by
   simp only [eltNameOk, Bool.and_eq_true, Option.isNone_iff_eq_none] at h
   have h1 : (lastIndexOf 124 devinfName).isSome = true := by decide
   have h2 : (lastIndexOf 124 mgmtName).isSome = true := by decide
   cases hd : n == devinfName with
-  | true => rw [beq_iff_eq] at hd; rw [hd] at h; rw [h.1] at h1; cases h1
+  | true => rw [beq_iff_eq] at hd; rw [hd] at h; rw [h.1.1] at h1; cases h1
   | false =>
     cases hm : n == mgmtName with
-    | true => rw [beq_iff_eq] at hm; rw [hm] at h; rw [h.1] at h2; cases h2
+    | true => rw [beq_iff_eq] at hm; rw [hm] at h; rw [h.1.1] at h2; cases h2
     | false => rfl
 
 theorem xstep_start {lang : Lang} {b : XBState} (h : XAt lang b) (hroot : b.stack = [] → b.root = none)
@@ -293,7 +295,7 @@ theorem xmlEltCore_shape (lang : Lang) (nsName eltName : Bytes) (attrs : List (B
 
 theorem localName_of_ok (n : Bytes) (h : eltNameOk n = true) : localName n = n := by
   simp only [eltNameOk, Bool.and_eq_true, Option.isNone_iff_eq_none] at h
-  unfold localName; rw [h.1]
+  unfold localName; rw [h.1.1]
 
 theorem xmlElt_shape (lang : Lang) (name : Bytes) (attrs : List (Bytes × Bytes)) (hn : eltNameOk name = true) :
     ∃ tag as, (xmlElt lang name attrs).1 = { kind := .elt tag as, kids := [] } ∧
@@ -320,7 +322,7 @@ theorem xmlElt_frameOk (lang : Lang) (hpl : plainLang lang = true) (name : Bytes
   refine ⟨⟨tag, as, rfl, ?_, plainLang_notBinary lang hpl tag hrow⟩, rfl⟩
   rw [hx]
   simp only [eltNameOk, Bool.and_eq_true, Bool.not_eq_true'] at hn
-  exact hn.2
+  exact hn.1.2
 
 theorem xmlElt_kids (lang : Lang) (name : Bytes) (attrs : List (Bytes × Bytes)) (hn : eltNameOk name = true) :
     (xmlElt lang name attrs).1.kids = [] := by
@@ -534,6 +536,14 @@ theorem xrun_doc {lang : Lang} {c : XCfg} (hpl : plainLang lang = true) (hc : c.
     side. -/
 def ReadsBack (env : List (Bytes × ExpatRun)) (xml : Bytes) (c : XCfg) (t : Tree) : Prop :=
   ∃ k run, env.find? (fun p => p.1 == xml) = some (k, run) ∧ run.ok = true ∧ ReadsDoc c t run.events
+
+/-- `ReadsBack` is satisfiable for every plain tree (language without namespace table, generation
+    mode ≠ indent): by the run that reports the canonical event sequence `xmlEventsOf c t`. -/
+theorem readsBack_canonical (xml : Bytes) (c : XCfg) (t : Tree) (r : Node) (hr : t.root = some r)
+    (hp : plainNode r = true) (hns : c.lang.ns = none) (hg : c.gen ≠ 1) :
+    ReadsBack [(xml, { ok := true, events := xmlEventsOf c t })] xml c t := by
+  refine ⟨xml, { ok := true, events := xmlEventsOf c t }, ?_, rfl, readsDoc_canonical c t r hr hp hns hg⟩
+  simp [List.find?]
 
 /-- `wbxml_tree_from_xml` on a text for which `ReadsBack` holds. -/
 theorem treeOfXml_readsBack {lang : Lang} {c : XCfg} (main : List Lang) (hpl : plainLang lang = true) (hc : c.lang = lang)
@@ -843,5 +853,464 @@ theorem treeToXml_ne_nil (cfg : W2XCfg) (fuel : Nat) (t : Tree) (xml : Bytes) (h
     rw [← h']
     unfold xmlHeader
     simp
+
+
+/-! ### The tree read back is a tree over the language again -/
+
+theorem encAttr_mem (t : List AttrRow) (name value : Bytes) (r : AttrRow) (n : Nat)
+    (h : encAttr t name value = some (r, n)) : r ∈ t :=
+  EncW.encAttrGo_mem name value t t {} (fun _ hr => hr) (by intro r h; cases h) r n h
+
+theorem xmlEltCore_attrs (lang : Lang) (nsName eltName : Bytes) (attrs : List (Bytes × Bytes)) :
+    ∃ tag as, (xmlEltCore lang nsName eltName attrs).1 = { kind := .elt tag as, kids := [] } ∧
+      ∀ a ∈ as, (∃ p ∈ attrs, a.value = p.2) ∧
+        (∀ r, a.name = .token r → ∃ t, lang.attrs = some t ∧ r ∈ t) := by
+  have hattrs : ∀ a ∈ (attrs.map fun (p : Bytes × Bytes) =>
+        let n := if xmlNsUri.isPrefixOf p.1 then b!"xml:" ++ p.1.drop xmlNsUri.length else p.1
+        let an := match lang.attrs with
+          | some t => (match encAttr t n p.2 with
+            | some (r, _) => AName.token r
+            | none => AName.literal n)
+          | none => AName.literal n
+        ({ name := an, value := p.2 } : Attr)),
+      (∃ p ∈ attrs, a.value = p.2) ∧ (∀ r, a.name = .token r → ∃ t, lang.attrs = some t ∧ r ∈ t) := by
+    intro a ha
+    rw [List.mem_map] at ha
+    obtain ⟨p, hp, rfl⟩ := ha
+    refine ⟨⟨p, hp, rfl⟩, ?_⟩
+    intro r hr
+    simp only at hr
+    cases hat : lang.attrs with
+    | none => rw [hat] at hr; cases hr
+    | some t =>
+      rw [hat] at hr
+      simp only at hr
+      split at hr
+      · rename_i r' k he
+        injection hr with hr; subst hr
+        exact ⟨t, rfl, encAttr_mem _ _ _ _ _ he⟩
+      · cases hr
+  unfold xmlEltCore
+  cases ht : lang.tags with
+  | none => exact ⟨_, _, rfl, hattrs⟩
+  | some tags =>
+    simp only
+    split
+    · exact ⟨_, _, rfl, hattrs⟩
+    · exact ⟨_, _, rfl, hattrs⟩
+
+mutual
+/-- Attribute values shorter than 2^32 octets (`WB_ULONG` lengths). -/
+def valuesShort : Node → Bool
+  | .elt _ attrs kids => attrs.all (fun a => decide (a.value.length < 4294967296)) && valuesShortL kids
+  | .text _ => true
+  | .cdata _ => true
+  | .tree _ _ _ => true
+def valuesShortL : List Node → Bool
+  | [] => true
+  | k :: r => valuesShort k && valuesShortL r
+end
+
+mutual
+theorem valuesShort_canon : ∀ (n : Node), valuesShort (canon n) = valuesShort n
+  | .elt name attrs kids => by
+    rw [canon_elt, valuesShort, valuesShort, valuesShortL_canon kids, List.all_map]; rfl
+  | .text s => by rw [canon_text]
+  | .cdata kids => by rw [canon]
+  | .tree l cs r => by rw [canon]
+theorem valuesShortL_canon : ∀ (ks : List Node), valuesShortL (canonL ks) = valuesShortL ks
+  | [] => by rw [canonL_nil]
+  | k :: r => by rw [canonL_cons, valuesShortL, valuesShortL, valuesShort_canon k, valuesShortL_canon r]
+end
+
+theorem attrNormalize_length (canonical : Bool) (v : Bytes) : (attrNormalize canonical v).length = v.length := by
+  unfold attrNormalize; split <;> simp
+
+theorem cstrOf_length_le (v : Bytes) : (cstrOf v).length ≤ v.length := by
+  unfold cstrOf; rw [List.length_take]; omega
+
+theorem nodesOver_iff (lang : Lang) : ∀ (l : List Node), nodesOver lang l = true ↔ ∀ k ∈ l, nodeOver lang k = true
+  | [] => by rw [nodesOver]; simp
+  | k :: r => by rw [nodesOver, Bool.and_eq_true, nodesOver_iff lang r]; simp
+
+theorem plainNodes_iff : ∀ (l : List Node), plainNodes l = true ↔ ∀ k ∈ l, plainNode k = true
+  | [] => by rw [plainNodes]; simp
+  | k :: r => by rw [plainNodes, Bool.and_eq_true, plainNodes_iff r]; simp
+
+theorem noDataNodes_iff : ∀ (l : List Node), noDataNodes l = true ↔ ∀ k ∈ l, noDataNode k = true
+  | [] => by rw [noDataNodes]; simp
+  | k :: r => by rw [noDataNodes, Bool.and_eq_true, noDataNodes_iff r]; simp
+
+/-- What the second encoding needs of the tree read back: over the language, plain, no `Data`. -/
+def GoodRead (lang : Lang) (k : Node) : Prop :=
+  nodeOver lang k = true ∧ plainNode k = true ∧ noDataNode k = true
+
+theorem goodRead_text (lang : Lang) (s : Bytes) : GoodRead lang (.text s) := by
+  refine ⟨?_, ?_, ?_⟩
+  · rw [nodeOver]
+  · rw [plainNode]
+  · rw [noDataNode]
+
+mutual
+theorem good_readNode (lang : Lang) (c : XCfg) : ∀ (n : Node), readable n = true → valuesShort n = true →
+    GoodRead lang (readNode lang c n)
+  | .elt name attrs kids, hre, hv => by
+    rw [readable, Bool.and_eq_true] at hre
+    rw [valuesShort, Bool.and_eq_true] at hv
+    have hK := good_readKids lang c kids [] hre.2 hv.2 (fun _ h => by cases h)
+    obtain ⟨nsName, e⟩ := xmlElt_eq lang name.xmlName (xmlAttrsOf c attrs)
+    obtain ⟨tag, as, he, hx, hrow, _⟩ := xmlElt_shape lang name.xmlName (xmlAttrsOf c attrs) hre.1
+    obtain ⟨tag', as', he', hattrs⟩ := xmlEltCore_attrs lang nsName (localName name.xmlName) (xmlAttrsOf c attrs)
+    rw [← e, he] at he'
+    injection he' with hk _
+    injection hk with h1 h2
+    subst h1 h2
+    rw [readNode_elt, he]
+    show GoodRead lang (.elt tag as (readKidsAcc lang c kids []))
+    have hnok := hre.1
+    simp only [eltNameOk, Bool.and_eq_true, Bool.not_eq_true'] at hnok
+    refine ⟨?_, ?_, ?_⟩
+    · rw [nodeOver, Bool.and_eq_true, Bool.and_eq_true]
+      refine ⟨⟨?_, ?_⟩, (nodesOver_iff lang _).mpr (fun k hk => (hK k hk).1)⟩
+      · cases tag with
+        | literal s => rfl
+        | token r =>
+          obtain ⟨tags, ht, hm⟩ := hrow r rfl
+          simp only [nameOver, ht, List.contains_iff_mem]; exact hm
+      · rw [List.all_eq_true]
+        intro a ha
+        obtain ⟨⟨p, hp, hpv⟩, htok⟩ := hattrs a ha
+        have hlen : a.value.length < 4294967296 := by
+          rw [hpv]
+          unfold xmlAttrsOf at hp
+          split at hp
+          · rw [List.mem_map] at hp
+            obtain ⟨a0, ha0, rfl⟩ := hp
+            have := List.all_eq_true.mp hv.1 a0 ha0
+            simp only [decide_eq_true_eq] at this
+            simp only [attrNormalize_length]
+            have := cstrOf_length_le a0.value
+            omega
+          · cases hp
+        simp only [attrOver, hlen, decide_true, Bool.true_and]
+        cases han : a.name with
+        | literal s => rfl
+        | token r =>
+          obtain ⟨t, ht, hm⟩ := htok r han
+          simp only [ht, List.contains_iff_mem]; exact hm
+    · rw [plainNode]; exact (plainNodes_iff _).mpr (fun k hk => (hK k hk).2.1)
+    · rw [noDataNode, Bool.and_eq_true]
+      refine ⟨?_, (noDataNodes_iff _).mpr (fun k hk => (hK k hk).2.2)⟩
+      have hc : tag.cName = name.xmlName := by
+        cases tag with
+        | token r => exact hx
+        | literal s =>
+          have hs : s = name.xmlName := hx
+          show cstrOf s = _
+          rw [hs]; exact cstrOf_of_nulFree _ hnok.2
+      rw [hc, hnok.1.2]; rfl
+  | .text s, _, _ => by rw [readNode_text]; exact goodRead_text lang _
+  | .cdata kids, hre, _ => by rw [readable] at hre; cases hre
+  | .tree l cs r, hre, _ => by rw [readable] at hre; cases hre
+theorem good_readKids (lang : Lang) (c : XCfg) : ∀ (ks acc : List Node), readableL ks = true → valuesShortL ks = true →
+    (∀ k ∈ acc, GoodRead lang k) → ∀ k ∈ readKidsAcc lang c ks acc, GoodRead lang k
+  | [], acc, _, _, h => by rw [readKidsAcc_nil]; exact h
+  | k :: rest, acc, hre, hv, h => by
+    rw [readableL, Bool.and_eq_true] at hre
+    rw [valuesShortL, Bool.and_eq_true] at hv
+    rw [readKidsAcc_cons]
+    exact good_readKids lang c rest _ hre.2 hv.2
+      (addN_all acc _ (goodRead_text lang) h (good_readNode lang c k hre.1 hv.1))
+end
+
+theorem isElt_readNode (lang : Lang) (c : XCfg) (n : Node) (hre : readable n = true) (helt : isElt n = true) :
+    isElt (readNode lang c n) = true := by
+  cases n with
+  | elt name attrs kids =>
+    rw [readable, Bool.and_eq_true] at hre
+    obtain ⟨tag, as, he, _⟩ := xmlElt_shape lang name.xmlName (xmlAttrsOf c attrs) hre.1
+    rw [readNode_elt, he]; rfl
+  | text s => cases helt
+  | cdata ks => cases helt
+  | tree l cs r => cases helt
+
+
+/-- The table hypotheses of `rt_preserves_partial` in one decidable predicate. -/
+def rtLangOk (l : Lang) : Bool :=
+  langOk l && plainLang l && noTypedAttr l.id && valSemOk l && attrSemOk l && tagSemOk l && attrNameSemOk l
+
+theorem rtLangOk_spec (l : Lang) (h : rtLangOk l = true) :
+    langOk l = true ∧ plainLang l = true ∧ noTypedAttr l.id = true ∧ valSemOk l = true ∧ attrSemOk l = true ∧
+    tagSemOk l = true ∧ attrNameSemOk l = true := by
+  simp only [rtLangOk, Bool.and_eq_true] at h
+  obtain ⟨⟨⟨⟨⟨⟨h1, h2⟩, h3⟩, h4⟩, h5⟩, h6⟩, h7⟩ := h
+  exact ⟨h1, h2, h3, h4, h5, h6, h7⟩
+
+
+/-! ### What the printer writes for a plain tree: the text `ReadsBack` is about
+
+  `wbxml_tree_to_xml` in compact or canonical mode, for a language without namespace table, writes
+  the header followed by `renderNode` of the root — start tags with the attributes
+  (` name="escaped value"`), `/>` for an element without children, escaped character data
+  (`printedText`), end tags, and nothing else. A conforming reader of that text reports
+  `xmlEventsOf`; this is the content of the assumption `ReadsBack`. -/
+
+mutual
+def renderNode (c : XCfg) : Node → Bytes
+  | .elt name attrs kids =>
+    [60] ++ name.xmlName ++ (if c.lang.attrs.isSome then attrs.flatMap (XmlPrint.attrBytes (c.gen == 2)) else []) ++
+      (if kids.isEmpty then b!"/>" else [62] ++ renderNodes c kids ++ (b!"</" ++ name.xmlName ++ [62]))
+  | .text s => xmlEscape (c.gen == 2) (printedText c s)
+  | .cdata _ => []
+  | .tree _ _ _ => []
+def renderNodes (c : XCfg) : List Node → Bytes
+  | [] => []
+  | k :: r => renderNode c k ++ renderNodes c r
+end
+
+mutual
+/-- No binary-flagged (base64-carried) element name in the tree. -/
+def noBinaryNames : Node → Bool
+  | .elt name _ kids => !isBinaryTag (XmlPrint.tagOf name) && noBinaryNamesL kids
+  | .text _ => true
+  | .cdata _ => true
+  | .tree _ _ _ => true
+def noBinaryNamesL : List Node → Bool
+  | [] => true
+  | k :: r => noBinaryNames k && noBinaryNamesL r
+end
+
+theorem xmlText_plain (c : XCfg) (hs : isSyncml c.lang.id = false) (s : Bytes) (st : XSt)
+    (hcd : st.inCdata = false) (hb : isBinaryTag st.curTag = false) :
+    ∃ ic, xmlText c s st = .ok { st with out := st.out ++ xmlEscape (c.gen == 2) (printedText c s), inContent := ic } := by
+  have h2201 : (c.lang.id == 2201) = false := by
+    cases h : c.lang.id == 2201 with
+    | false => rfl
+    | true => simp only [isSyncml, h, Bool.or_true] at hs; cases hs
+  unfold xmlText printedText
+  simp only [hcd, hb, Bool.not_false, Bool.true_and, hs, h2201, Bool.false_and, Bool.false_eq_true, ↓reduceIte]
+  split
+  · refine ⟨st.inContent, ?_⟩
+    simp only [xmlEscape, List.flatMap_nil, List.append_nil]
+    cases st; simp only at hcd; subst hcd; rfl
+  · exact ⟨true, rfl⟩
+
+theorem render_run (c : XCfg) (hg : c.gen ≠ 1) (hns : c.lang.ns = none) (hs : isSyncml c.lang.id = false) :
+    ∀ (f : Nat),
+      (∀ (p : Parent) (n : Node) (st st' : XSt), plainNode n = true → noBinaryNames n = true →
+        st.inCdata = false → isBinaryTag st.curTag = false → xmlNode c p f n st = .ok st' →
+        st'.out = st.out ++ renderNode c n ∧ st'.inCdata = false ∧ st'.curTag = none) ∧
+      (∀ (p : Parent) (ks : List Node) (st st' : XSt), plainNodes ks = true → noBinaryNamesL ks = true →
+        st.inCdata = false → isBinaryTag st.curTag = false → xmlNodes c p f ks st = .ok st' →
+        st'.out = st.out ++ renderNodes c ks ∧ st'.inCdata = false ∧ isBinaryTag st'.curTag = false)
+  | 0 => ⟨fun _ _ _ _ _ _ _ _ h => (by rw [xmlNode] at h; cases h),
+          fun _ _ _ _ _ _ _ _ h => (by rw [xmlNodes] at h; cases h)⟩
+  | f + 1 => by
+    obtain ⟨ihN, ihL⟩ := render_run c hg hns hs f
+    have hg1 : (c.gen == 1) = false := by simpa using hg
+    constructor
+    · intro p n st st' hp hnb hcd hb h
+      cases n with
+      | elt name attrs kids =>
+        rw [plainNode] at hp
+        rw [noBinaryNames, Bool.and_eq_true, Bool.not_eq_true'] at hnb
+        simp only [xmlNode] at h
+        obtain ⟨st2, h2, h3⟩ := bind_ok' h
+        have h3 := ok_inj h3
+        rw [XmlPrint.xmlTag_out] at h2
+        have hnsd : XmlPrint.nsDecl c p name = [] := by
+          unfold XmlPrint.nsDecl; rw [hns]
+        simp only [hg1, Bool.false_eq_true, ↓reduceIte, List.append_nil, hnsd] at h2
+        -- attributes
+        have hattr : ∀ (s0 : XSt), (if c.lang.attrs.isSome = true then attrs.foldl (fun st a => xmlAttr c a st) s0 else s0) =
+            { s0 with out := s0.out ++ (if c.lang.attrs.isSome then attrs.flatMap (XmlPrint.attrBytes (c.gen == 2)) else []) } := by
+          intro s0
+          split
+          · rw [XmlPrint.xmlAttrs_out]
+          · simp
+        rw [hattr] at h2
+        unfold xmlEndAttrs at h2
+        simp only [hg1, Bool.false_and, Bool.false_eq_true, ↓reduceIte, List.append_nil] at h2
+        cases hk : kids.isEmpty with
+        | true =>
+          have hkn : kids = [] := List.isEmpty_iff.mp hk
+          subst hkn
+          simp only [List.isEmpty_nil, ↓reduceIte] at h2 h3
+          cases f with
+          | zero => rw [xmlNodes] at h2; cases h2
+          | succ f =>
+            rw [xmlNodes] at h2
+            have h2 := ok_inj h2
+            subst h2 h3
+            refine ⟨?_, hcd, rfl⟩
+            rw [renderNode]
+            simp only [List.isEmpty_nil, ↓reduceIte, List.append_assoc]
+        | false =>
+          simp only [hk, Bool.false_eq_true, ↓reduceIte] at h2 h3
+          have key := fun a b => ihL _ kids _ st2 hp hnb.2 a b h2
+          obtain ⟨ho, hc2, _⟩ := key hcd hnb.1
+          subst h3
+          unfold xmlEndTag
+          simp only [hg1, Bool.false_and, Bool.false_eq_true, ↓reduceIte, List.append_nil]
+          refine ⟨?_, hc2, trivial⟩
+          rw [ho, renderNode]
+          simp only [hk, Bool.false_eq_true, ↓reduceIte, List.append_assoc]
+      | text s =>
+        simp only [xmlNode] at h
+        obtain ⟨st2, h2, h3⟩ := bind_ok' h
+        have h3 := ok_inj h3
+        obtain ⟨ic, ht⟩ := xmlText_plain c hs s st hcd hb
+        rw [ht] at h2
+        have h2 := ok_inj h2
+        subst h2 h3
+        exact ⟨by rw [renderNode], hcd, rfl⟩
+      | cdata ks => rw [plainNode] at hp; cases hp
+      | tree l cs r => rw [plainNode] at hp; cases hp
+    · intro p ks st st' hp hnb hcd hb h
+      cases ks with
+      | nil =>
+        rw [xmlNodes] at h
+        have h := ok_inj h
+        subst h
+        exact ⟨by rw [renderNodes, List.append_nil], hcd, hb⟩
+      | cons k rest =>
+        rw [plainNodes, Bool.and_eq_true] at hp
+        rw [noBinaryNamesL, Bool.and_eq_true] at hnb
+        simp only [xmlNodes] at h
+        obtain ⟨st1, h1, h2⟩ := bind_ok' h
+        obtain ⟨ho1, hc1, hcur1⟩ := ihN p k st st1 hp.1 hnb.1 hcd hb h1
+        obtain ⟨ho2, hc2, hb2⟩ := ihL p rest st1 st' hp.2 hnb.2 hc1 (by rw [hcur1]; rfl) h2
+        exact ⟨by rw [ho2, ho1, renderNodes, List.append_assoc], hc2, hb2⟩
+
+/-- **What is printed.** `wbxml_tree_to_xml` (compact or canonical, language without namespace
+    table, not SyncML, plain tree without binary-flagged names) writes the header and `renderNode`
+    of the root. -/
+theorem treeToXml_render (cfg : W2XCfg) (fuel : Nat) (t : Tree) (lang : Lang) (r : Node) (xml : Bytes)
+    (hlang : t.lang = some lang) (hroot : t.root = some r) (hg : cfg.gen ≠ 1) (hns : lang.ns = none)
+    (hs : isSyncml lang.id = false) (hp : plainNode r = true) (hnb : noBinaryNames r = true)
+    (h : treeToXml cfg fuel t = .ok xml) : xml = xmlHeader lang cfg.gen ++ renderNode (xcfgOf cfg lang) r := by
+  unfold treeToXml at h
+  rw [hlang, hroot] at h
+  dsimp only at h
+  obtain ⟨st, h1, h2⟩ := bind_ok' h
+  have h2 := ok_inj h2
+  obtain ⟨ho, _, _⟩ := (render_run (xcfgOf cfg lang) hg hns hs fuel).1 .none r {} st hp hnb rfl rfl h1
+  rw [← h2, ho]
+  rfl
+
+
+/-! ### The printed text only depends on the view; round-trip trees have no binary names -/
+
+mutual
+theorem renderNode_canon (c : XCfg) : ∀ (n : Node), renderNode c (canon n) = renderNode c n
+  | .elt name attrs kids => by
+    rw [canon_elt, renderNode, renderNode, renderNodes_canonL c kids]
+    have h1 : (canonL kids).isEmpty = kids.isEmpty := by cases kids <;> simp [canonL_nil, canonL_cons]
+    have h2 : (attrs.map canonAttr).flatMap (XmlPrint.attrBytes (c.gen == 2)) =
+        attrs.flatMap (XmlPrint.attrBytes (c.gen == 2)) := by
+      rw [List.flatMap_map]; rfl
+    rw [h1, h2]
+    rfl
+  | .text s => by rw [canon_text]
+  | .cdata kids => by rw [canon]
+  | .tree l cs r => by rw [canon]
+theorem renderNodes_canonL (c : XCfg) : ∀ (ks : List Node), renderNodes c (canonL ks) = renderNodes c ks
+  | [] => by rw [canonL_nil]
+  | k :: r => by rw [canonL_cons, renderNodes, renderNodes, renderNode_canon c k, renderNodes_canonL c r]
+end
+
+mutual
+theorem plain_of_nf : ∀ (n : Node), nfNode n = true → plainNode n = true
+  | .elt name attrs kids, h => by rw [nfNode] at h; rw [plainNode]; exact plainL_of_nf kids h
+  | .text s, _ => by rw [plainNode]
+  | .cdata kids, h => by rw [nfNode] at h; cases h
+  | .tree l cs r, h => by rw [nfNode] at h; cases h
+theorem plainL_of_nf : ∀ (ks : List Node), nfKids ks = true → plainNodes ks = true
+  | [], _ => by rw [plainNodes]
+  | k :: r, h => by
+    rw [nfKids_cons] at h
+    simp only [Bool.and_eq_true] at h
+    rw [plainNodes, plain_of_nf k h.1.1, plainL_of_nf r h.2]; rfl
+end
+
+theorem noBinaryNamesL_iff : ∀ (l : List Node), noBinaryNamesL l = true ↔ ∀ k ∈ l, noBinaryNames k = true
+  | [] => by rw [noBinaryNamesL]; simp
+  | k :: r => by rw [noBinaryNamesL, Bool.and_eq_true, noBinaryNamesL_iff r]; simp
+
+theorem tagName_notBinary (c : Ctx) (hpl : plainLang c.lang = true) (tp : Nat) (tag : Tag) :
+    isBinaryTag (XmlPrint.tagOf (tagName c tp tag).1) = false := by
+  cases tag with
+  | lit off => rfl
+  | tok t =>
+    simp only [tagName]
+    cases hr : tagRow c tp t with
+    | none => rfl
+    | some r =>
+      simp only [XmlPrint.tagOf]
+      unfold tagRow at hr
+      cases ht : c.lang.tags with
+      | none => rw [ht] at hr; cases hr
+      | some tags =>
+        rw [ht] at hr
+        have hm := List.mem_of_find?_eq_some hr
+        simp only [plainLang, ht, Bool.and_eq_true, List.all_eq_true, beq_iff_eq] at hpl
+        simp [isBinaryTag, hpl.2 r hm]
+
+mutual
+theorem noBinary_nodeOfElem (c : Ctx) (hpl : plainLang c.lang = true) : ∀ (e : Elem) (pg : Pages),
+    noBinaryNames (nodeOfElem c pg e) = true
+  | .mk sw tag attrs content, pg => by
+    rw [nodeOfElem_mk, noBinaryNames, tagName_notBinary c hpl]
+    exact (noBinaryNamesL_iff _).mpr (noBinary_kidsOfContent c hpl content _ _ [] (fun _ h => by cases h))
+theorem noBinary_kidsOfContent (c : Ctx) (hpl : plainLang c.lang = true) : ∀ (content : Option (List Item))
+    (own : Option TagRow) (pg : Pages) (acc : List Node), (∀ k ∈ acc, noBinaryNames k = true) →
+    ∀ k ∈ kidsOfContent c own pg content acc, noBinaryNames k = true
+  | none, own, pg, acc, h => by rw [kidsOfContent_none]; exact h
+  | some items, own, pg, acc, h => by rw [kidsOfContent_some]; exact noBinary_kidsOfItems c hpl items own pg acc h
+theorem noBinary_kidsOfItems (c : Ctx) (hpl : plainLang c.lang = true) : ∀ (items : List Item)
+    (own : Option TagRow) (pg : Pages) (acc : List Node), (∀ k ∈ acc, noBinaryNames k = true) →
+    ∀ k ∈ kidsOfItems c own pg items acc, noBinaryNames k = true
+  | [], own, pg, acc, h => by rw [kidsOfItems_nil]; exact h
+  | it :: more, own, pg, acc, h => by
+    rw [kidsOfItems_cons]; exact noBinary_kidsOfItems c hpl more own _ _ (noBinary_kidOfItem c hpl it own pg acc h)
+theorem noBinary_kidOfItem (c : Ctx) (hpl : plainLang c.lang = true) : ∀ (it : Item)
+    (own : Option TagRow) (pg : Pages) (acc : List Node), (∀ k ∈ acc, noBinaryNames k = true) →
+    ∀ k ∈ kidOfItem c own pg it acc, noBinaryNames k = true
+  | .elem e, own, pg, acc, h => by
+    rw [kidOfItem_elem]
+    exact addKid_all acc _ (fun s => by rw [noBinaryNames]) h (noBinary_nodeOfElem c hpl e pg)
+  | .str s, own, pg, acc, h => by
+    rw [kidOfItem_str]; unfold addChars; split
+    · exact h
+    · exact addKid_all acc _ (fun s => by rw [noBinaryNames]) h (by rw [noBinaryNames])
+  | .entity code, own, pg, acc, h => by
+    rw [kidOfItem_entity]; unfold addChars; split
+    · exact h
+    · exact addKid_all acc _ (fun s => by rw [noBinaryNames]) h (by rw [noBinaryNames])
+  | .opaque d, own, pg, acc, h => by
+    rw [kidOfItem_opaque]; unfold addChars; split
+    · exact h
+    · exact addKid_all acc _ (fun s => by rw [noBinaryNames]) h (by rw [noBinaryNames])
+  | .ext sw x, own, pg, acc, h => by
+    rw [kidOfItem_ext]; unfold addChars; split
+    · exact h
+    · exact addKid_all acc _ (fun s => by rw [noBinaryNames]) h (by rw [noBinaryNames])
+  | .pi p, own, pg, acc, h => by rw [kidOfItem_pi]; exact h
+end
+
+theorem noBinary_rootOfDoc (cfg : PCfg) (d : Doc) (l : Lang) (hpl : plainLang l = true) :
+    noBinaryNames (rootOfDoc cfg d l) = true :=
+  noBinary_nodeOfElem (headerCtx cfg d.hdr l) hpl _ _
+
+/-- Two trees with the same view are printed alike. -/
+theorem printed_congr (cfg : W2XCfg) (lang : Lang) (ta tb : Tree) (ra rb : Node) (fa fb : Nat) (xa xb : Bytes)
+    (hla : ta.lang = some lang) (hlb : tb.lang = some lang) (hra : ta.root = some ra) (hrb : tb.root = some rb)
+    (hg : cfg.gen ≠ 1) (hns : lang.ns = none) (hs : isSyncml lang.id = false)
+    (hpa : plainNode ra = true) (hpb : plainNode rb = true) (hna : noBinaryNames ra = true)
+    (hnb : noBinaryNames rb = true) (hc : canon ra = canon rb)
+    (ha : treeToXml cfg fa ta = .ok xa) (hb : treeToXml cfg fb tb = .ok xb) : xa = xb := by
+  rw [treeToXml_render cfg fa ta lang ra xa hla hra hg hns hs hpa hna ha,
+    treeToXml_render cfg fb tb lang rb xb hlb hrb hg hns hs hpb hnb hb,
+    ← renderNode_canon _ ra, ← renderNode_canon _ rb, hc]
 
 end Wbxml.Lemmas.Rt
